@@ -12,12 +12,12 @@ reg(Prop('C04', [
     Stream('c04.seq', 4000, 80000, 'model'),
 ], level='proof',
     clauses=[
-        'monotone_any_input (+ monotone_between_end_sequences, monotone_any_unit): for ALL program bytes and all decoded headers, both build modes, returned row addresses never decrease inside a sequence and never exceed the address size - outside the known class swallowed_end; monotone_any_input_refuted gives the witness of the known finding',
+        'monotone_any_input, monotone_any_unit: FULL statement, no exclusion - for ALL program bytes and all decoded headers, both build modes, returned row addresses never decrease inside a sequence (rows up to an end_sequence row) and never exceed the address size (model mirrors the code after fix 9872ff0; the former refutation witness is now the Example repaired_witness_rows)',
         'no_panic_parse_insn / no_panic_execute / no_panic_rows / no_panic_parse_header: no panic and fuel suffices for LineInstruction::parse (no hypothesis), execute, next_row, rows(), a caller continuing after errors, sequences(), and LineProgramHeader::parse (every byte string, v2-5)',
         'insn_roundtrip: parse_insn (enc_insn i ++ rest) = (i, rest) for every well-formed instruction incl. opcode_base <> 13, unknown standard (0/1/n operands) and extended opcodes, both byte orders',
         'special_opcode_arith, operation_advance_vliw, execute_refines_spec: the u8 / Wrapping<u64> arithmetic of the model equals the DWARF formulas (adj, line_base + adj mod range, adj / range, VLIW address/op_index update)',
         'rows_refine_spec: for every well-formed program (prog_wf) rows() over its encoding = rows_spec of the DWARF state machine over Z, run to completion, no tombstones',
-        'sequences_eq_rows: whenever sequences() is Ok, rows() = concatenation of resume_from(s) rows over the sequences + trailing rows without end_sequence; each resumed run ends normally, is body ++ [end row], start = first body address (0 if none), end = end row address; file table = the straight run\'s',
+        'sequences_eq_rows: whenever sequences() is Ok, rows() = concatenation of resume_from(s) rows over the sequences + trailing rows without end_sequence; each resumed run ends normally, is body ++ [end row], start = first body address (0 if none), end = end row address; file table = the straight run\'s; sequence_bounds_ordered: with a decoded header start <= end <= mask and every resumed sequence is monotone',
         'header_roundtrip_v2_v4, header_roundtrip_v5, entry_component_roundtrip: LineProgramHeader::parse (enc_unit r prog ++ tail) = header_of_raw r prog for versions 2-5 (v5: any entry formats with one path component, all 24 forms, MD5, LLVM source), both formats/byte orders',
     ],
     explored_only=[
@@ -28,8 +28,8 @@ reg(Prop('C04', [
     design_ref='§5 C04',
     level_text=('Coq theorems over a Gallina mirror of src/read/line.rs: for every byte string as program and every decoded header, '
                 'in debug and release arithmetic, decoding/executing never panics and returned row addresses are monotone within a '
-                'sequence and bounded by the address size (the one exception, a tombstoned end_sequence row being dropped, is a '
-                'machine-checked refutation + known finding with a proposed fix); instruction and v2-4 header codecs round-trip; for '
+                'sequence and bounded by the address size (full statement; the defect found on the way, a tombstoned end_sequence row '
+                'being dropped, is repaired in 9872ff0 and modelled as repaired); instruction and v2-5 header codecs round-trip; for '
                 'every well-formed program the rows are exactly those of the DWARF state machine written over unbounded integers '
                 '(special opcodes, VLIW op_index, unknown opcodes, non-standard opcode_base); sequences()+resume_from() = rows() with '
                 'exact bounds. The model is tied to gimli by ~48k cases per quick run in debug and release (every opcode byte per '
